@@ -14,8 +14,28 @@ INLINE = r"Nfa::(set_start_state|set_end_state|end_state|new)$"
 BUILDERS = {"zero_or_one": "opt", "zero_or_more": "star", "one_or_more": "plus"}
 
 
+def defaultish(v):
+    """A value that is its type's default: `T::default()`, a field of such a value, the id 0."""
+    if v[0] == "app" and re.search(r"(Default>::default|::default)$", str(v[1])) and not v[2]:
+        return True
+    if v[0] == "field" and defaultish(v[1]):
+        return True
+    if v[0] == "adt" and str(v[1]).startswith("internal::ids::") and len(v[3]) == 1 and v[3][0] == ("int", 0):
+        return True
+    return v == ("int", 0)
+
+
 def is_fresh(t):
-    return t[0] == "app" and t[1] == "mut:Nfa::set_pattern" and t[2] and t[2][0][0] == "adt" and t[2][0][1].endswith("Nfa")
+    """The NFA `Nfa::new()` makes (one default state, start = end = 0), whatever its pattern text: written as a struct literal,
+    with struct-update syntax over `Default::default()`, and with the pattern set by set_pattern or by rebuilding the value."""
+    if t[0] == "app" and t[1] == "mut:Nfa::set_pattern" and t[2]:
+        return is_fresh(t[2][0])
+    if t[0] == "adt" and str(t[1]).endswith("Nfa") and len(t[3]) == 4:
+        st = t[3][1]
+        return st[0] == "vec" and len(st[1]) == 1 and defaultish(st[1][0]) and defaultish(t[3][2]) and defaultish(t[3][3])
+    if t[0] == "upd" and len(t[2]) == 1 and t[2][0][1] == "pattern":
+        return is_fresh(t[1])
+    return False
 
 
 def child_of(t):
